@@ -43,6 +43,8 @@ type FlowOpts struct {
 	Generations  int  // incarnations (1: no restart)
 	FaultFreeAfterStop bool
 	StopW        int // weight of the environment action "stop the process"
+	FSStore      bool // the session runs on the FileSystem store over the simulated os
+	FSStopCalls  int  // the kill lands within this many system calls of the incarnation
 	HostileN     int // hostile injections per run
 	HostileHandshake int // permille of CONNECTs answered by a hostile reply
 	StopWhenPublished bool // the incarnation stops (at rest) once every publish call has returned
@@ -133,6 +135,9 @@ type Flow struct {
 	LastRSReturn int
 	InSent       int // application messages the broker has been given so far
 	Owned        map[uint16]int // inbound exactly-once identifiers whose marker is stored -> step of the Save
+	FS         *SimFS  // set when the session runs on the FileSystem store
+	fsCallsInit int
+	fsInFlight map[uint64]*DiskOp // Save/Delete in progress on the FileSystem store, per goroutine
 	Damage     []DamageRec
 	Hostiles   []*HostileInj
 	HostileLeft int
